@@ -33,6 +33,8 @@ class LazyBodies:
         if len(segs) >= 3 and "{closure#" not in k:
             typed = len(segs) >= 2 and (segs[-2][:1].isupper() or "<" in segs[-2])
             tail = segs[-2:] if typed else segs[-1:]
+            if typed and segs[-2].startswith("<") and len(segs) >= 4:
+                tail = segs[-3:]          # Type::<Args>::item
             # only ever the head of the *type* may differ for a method; for free items only the module segments in between
             cands = [c for c in self._raw if c.split("::")[-len(tail):] == tail and c.split("::")[:2] == segs[:2]
                      and "{closure#" not in c]
